@@ -66,7 +66,7 @@ Definition modelled (c : case) : bool :=
 
 Theorem bridge c : modelled c = true -> wf_case c = true -> run_case c = true -> prop_case c = true.
 Proof.
-  destruct c as [tag t coins parts txid auth shsig sigs | f t t' coins coins' o o' | | | | | | |]; try discriminate; intros _ W R.
+  destruct c as [tag t coins parts txid auth shsig sigs | f t t' coins coins' o o' | | | | | | | |]; try discriminate; intros _ W R.
   - cbn [run_case prop_case] in *. apply andb_true_iff in R. destruct R as [_ R]. exact R.
   - destruct o as [txid auth shsig sigs], o' as [txid' auth' shsig' sigs'].
     cbn [wf_case run_case prop_case] in *. unfold wf_obs in W. bsplit.
@@ -125,4 +125,35 @@ Proof.
   apply andb_true_iff. split.
   - rewrite <- sighash4_eqb_bridge; auto; try exact Logic.I. apply eqb_true_iff. assumption.
   - apply sig4_pairs_bridge; auto.
+Qed.
+
+(** * parse-path independence and raw hash types *)
+(** what [prop_case] demands of a re-parse observation: the identifier obtained through any
+    fragmentation of the reader is the expected one (SHA-256d of the bytes before v5), hence any
+    two fragmentations of the same bytes give the same identifier *)
+Lemma reparse_independent v k k' e o o' :
+  prop_case (CReparse v k e o) = true -> prop_case (CReparse v k' e o') = true -> o = o' /\ o = e.
+Proof.
+  cbn [prop_case]. rewrite !bytes_eqb_spec. intros <- <-. auto.
+Qed.
+
+(** raw pre-v5 hash-type bytes: the base type is the low five bits, ANYONECANPAY is bit 7; bits
+    0x20 and 0x40 select nothing (they are still hashed, as part of the 4-byte hash type) *)
+Lemma flags_raw ht :
+  flag_single ht = flag_single (N.land ht 31) /\ flag_none ht = flag_none (N.land ht 31)
+  /\ flag_acp ht = N.testbit ht 7
+  /\ flag_single (N.lor ht 96) = flag_single ht /\ flag_none (N.lor ht 96) = flag_none ht
+  /\ flag_acp (N.lor ht 96) = flag_acp ht.
+Proof.
+  unfold flag_single, flag_none, flag_acp.
+  change SIGHASH_MASK with 31. change SIGHASH_ANYONECANPAY with 128.
+  rewrite <- !N.land_assoc. change (N.land 31 31) with 31.
+  rewrite !N.land_lor_distr_l. change (N.land 96 31) with 0. change (N.land 96 128) with 0. rewrite !N.lor_0_r.
+  repeat split; auto.
+  change 128 with (2 ^ 7). destruct (N.testbit ht 7) eqn:B.
+  - destruct (N.land ht (2 ^ 7) =? 0) eqn:E; auto. apply N.eqb_eq in E.
+    apply (f_equal (fun x => N.testbit x 7)) in E. rewrite N.land_spec, B, N.pow2_bits_true in E. discriminate.
+  - destruct (N.land ht (2 ^ 7) =? 0) eqn:E; auto. apply N.eqb_neq in E. exfalso. apply E.
+    apply N.bits_inj. intros n. rewrite N.land_spec, N.bits_0.
+    destruct (N.eq_dec n 7) as [->|D]; [rewrite B; reflexivity|]. rewrite N.pow2_bits_false by auto. apply andb_false_r.
 Qed.
